@@ -37,6 +37,7 @@ type World struct {
 	Hosts    map[string][]net.IP // scripted resolver
 	BindErr  map[string]error    // "tcp/<addr>" or "udp/<addr>" as passed by the caller -> error
 	DialErr  map[string]error    // "ip:port" -> error returned by connect
+	DialHang map[string]bool     // "ip:port" -> the connect never completes: the dial returns only when its context is cancelled
 	UDPSocketFailAt int          // the n-th (1-based) outbound ListenPacket("udp","") fails; 0 = never
 	udpOutCount     int
 	TCPBuf   int // receive buffer size of TCP endpoints
@@ -55,6 +56,7 @@ func Reset() *World {
 		Hosts:    map[string][]net.IP{},
 		BindErr:  map[string]error{},
 		DialErr:  map[string]error{},
+		DialHang: map[string]bool{},
 		TCPBuf:   65536,
 		UDPQueue: 64,
 	}
@@ -148,6 +150,7 @@ type TCPConn struct {
 	// lost when the connection is reset (by either side); a FIN is delivered after them.
 	sq         []byte
 	finQueued  bool
+	lingerZero bool // SO_LINGER with a zero timeout
 	sndBuf     int // 0: the world's default
 	rcvBuf     int // 0: the world's default
 }
@@ -488,11 +491,11 @@ func (c *TCPConn) Close() error {
 	}
 	c.closed = true
 	c.ClosedAt = c.stamp()
-	if len(c.rbuf) > 0 && !c.readClosed {
+	if (len(c.rbuf) > 0 && !c.readClosed) || c.lingerZero {
 		c.SentRST = true
 		c.peer.rst = true
 		c.reset()
-		vrt.Log("tcp.rst", c.Name(), "close-with-unread", int64(len(c.rbuf)))
+		vrt.Log("tcp.rst", c.Name(), "close-with-unread-or-linger0", int64(len(c.rbuf)))
 	} else if !c.writeClosed {
 		// orderly: the FIN follows whatever is still queued (the socket lingers in the background)
 		c.finQueued = true
@@ -576,7 +579,8 @@ func (c *TCPConn) SetWriteDeadline(t time.Time) error {
 func (c *TCPConn) SetKeepAlive(bool) error                  { return nil }
 func (c *TCPConn) SetKeepAlivePeriod(time.Duration) error   { return nil }
 func (c *TCPConn) SetNoDelay(bool) error                    { return nil }
-func (c *TCPConn) SetLinger(int) error                      { return nil }
+// SetLinger(0): Close discards what has not been sent yet and resets the connection.
+func (c *TCPConn) SetLinger(sec int) error { c.lingerZero = sec == 0; return nil }
 // SetReadBuffer / SetWriteBuffer set this endpoint's buffer sizes (the send queue exists only for
 // endpoints with a send buffer size).
 func (c *TCPConn) SetReadBuffer(n int) error  { c.rcvBuf = n; return nil }
@@ -816,6 +820,14 @@ func (d *Dialer) dialOne(ctx context.Context, ip net.IP, zone string, port int) 
 	}
 	if target.IP.IsLoopback() {
 		laddr.IP = target.IP
+	}
+	if W.DialHang[target.String()] {
+		vrt.Log("tcp.connect.hang", laddr.String(), target.String(), 0)
+		vrt.WaitDone(ctx)
+		if vrt.Aborting() {
+			return nil, net.ErrClosed
+		}
+		return nil, opErr("dial", "tcp", nil, raddr, ctx.Err())
 	}
 	return W.connect("srv", laddr, target)
 }
@@ -1069,7 +1081,12 @@ func (u *UDPConn) WriteTo(b []byte, addr net.Addr) (int, error) {
 	if !ok || ua == nil {
 		return 0, opErr("write", "udp", u.local, addr, syscall.EINVAL)
 	}
-	if len(b) > MaxUDPPayload {
+	// the largest payload: 65535 minus the UDP header, and over IPv4 minus the IP header as well
+	limit := MaxUDPPayload
+	if ua.IP != nil && ua.IP.To4() == nil {
+		limit = 65527
+	}
+	if len(b) > limit {
 		return 0, opErr("write", "udp", u.local, addr, os.NewSyscallError("sendto", syscall.EMSGSIZE))
 	}
 	if ua.Port == 0 {
